@@ -445,3 +445,57 @@ func nilResultFacts(call *ssa.Call, idx int) []string {
 	sort.Strings(out)
 	return out
 }
+
+// inlineHelperResult renders result idx of a transparent helper call as the expression the helper
+// returns, in the caller's terms, when that expression is the same on every return that does not
+// return the zero constant for it (`val, err := check(...)`: on success check returns
+// valSet.GetByIndex(idx)#1, on every failure nil). A value computed in a helper and handed back then
+// renders like the value computed in place.
+var inlineBusy = map[*ssa.Call]bool{}
+
+func inlineHelperResult(call *ssa.Call, idx, d int) (string, bool) {
+	if len(newHelpers) == 0 || inlineBusy[call] || d > 12 {
+		return "", false
+	}
+	h := helperCallee(call)
+	if h == nil {
+		return "", false
+	}
+	// only value results: an error result keeps its call form (nil-ness facts are phrased on it)
+	res := h.Signature.Results()
+	if idx >= res.Len() || types.Identical(res.At(idx).Type(), types.Universe.Lookup("error").Type()) {
+		return "", false
+	}
+	inlineBusy[call] = true
+	defer delete(inlineBusy, call)
+	var vals []ssa.Value
+	for _, rt := range returnsOwn(h) {
+		if idx >= len(rt.Results) {
+			return "", false
+		}
+		v := rt.Results[idx]
+		if c, ok := v.(*ssa.Const); ok && (c.Value == nil || c.IsNil()) {
+			continue // zero/nil on a failure path
+		}
+		vals = append(vals, v)
+	}
+	if len(vals) == 0 {
+		return "", false
+	}
+	out := ""
+	okAll := true
+	withCallArgs(call, func() {
+		for i, v := range vals {
+			s := render(v, d+1)
+			if i == 0 {
+				out = s
+			} else if s != out {
+				okAll = false
+			}
+		}
+	})
+	if !okAll {
+		return "", false
+	}
+	return out, true
+}
